@@ -204,7 +204,7 @@ func c02observe(b []byte, reports bool, mult int, retried bool) *c02Outcome {
 		o.canon = Canon(p)
 		// Write
 		var buf bytes.Buffer
-		if pn := safely(func() { p.WriteUncompressed(&buf) }); pn != "" {
+		if pn := c02Safely(func() { p.WriteUncompressed(&buf) }); pn != "" {
 			fail("C02/write/panic", "WriteUncompressed of an accepted profile panics: "+pn)
 			return
 		}
@@ -215,21 +215,21 @@ func c02observe(b []byte, reports bool, mult int, retried bool) *c02Outcome {
 			fail("C02/write/invalid", "the written form of an accepted profile parses to an invalid profile")
 		}
 		var zbuf bytes.Buffer
-		if pn := safely(func() { p.Write(&zbuf) }); pn != "" {
+		if pn := c02Safely(func() { p.Write(&zbuf) }); pn != "" {
 			fail("C02/writegz/panic", "Write of an accepted profile panics: "+pn)
 		} else if _, e := profile.ParseData(zbuf.Bytes()); e != nil {
 			fail("C02/writegz/unparsable", "the gzip-written form of an accepted profile is rejected: "+e.Error())
 		}
 		// Copy
 		var cp *profile.Profile
-		if pn := safely(func() { cp = p.Copy() }); pn != "" {
+		if pn := c02Safely(func() { cp = p.Copy() }); pn != "" {
 			fail("C02/copy/panic", "Copy of an accepted profile panics: "+pn)
 		} else if cp == nil || cp.CheckValid() != nil || c02Contract(cp) != "" {
 			fail("C02/copy/invalid", "Copy of an accepted profile is not valid")
 		}
 		// Compact = Merge of itself
 		var cm *profile.Profile
-		if pn := safely(func() { cm = p.Compact() }); pn != "" {
+		if pn := c02Safely(func() { cm = p.Compact() }); pn != "" {
 			fail("C02/compact/panic", "Compact of an accepted profile panics: "+pn)
 		} else if cm == nil {
 			fail("C02/compact/nil", "Compact of an accepted profile returns nil (Merge of the profile with itself failed)")
@@ -238,7 +238,7 @@ func c02observe(b []byte, reports bool, mult int, retried bool) *c02Outcome {
 		} else if w := c02Contract(cm); w != "" {
 			fail("C02/compact/invalid", "Compact of an accepted profile violates the contract: "+w)
 		}
-		if pn := safely(func() { _ = p.String() }); pn != "" {
+		if pn := c02Safely(func() { _ = p.String() }); pn != "" {
 			fail("C02/string/panic", "Profile.String of an accepted profile panics: "+pn)
 		}
 		if !reports {
@@ -345,7 +345,7 @@ func c02Correspond(c *Ctx, raw, b []byte, wasGz bool, o *c02Outcome) (sig, what,
 	if len(b) > 0 {
 		var q *profile.Profile
 		var qerr error
-		if pn := safely(func() { q, qerr = profile.ParseUncompressed(b) }); pn == "" {
+		if pn := c02Safely(func() { q, qerr = profile.ParseUncompressed(b) }); pn == "" {
 			goRep := "err"
 			if qerr == nil {
 				goRep = "ok " + Canon(q)
@@ -356,26 +356,26 @@ func c02Correspond(c *Ctx, raw, b []byte, wasGz bool, o *c02Outcome) (sig, what,
 			c.Res.ModelCompared++
 			mp := c.Drv.Ask("codec.parse " + htok)
 			if mp != goRep {
-				return "C02/model-parseUncompressed/go=" + firstWord(goRep) + ",model=" + firstWord(mp),
-					"ParseUncompressed and the model disagree: go=" + trunc(goRep) + " model=" + trunc(mp),
+				return "C02/model-parseUncompressed/go=" + c02FirstWord(goRep) + ",model=" + c02FirstWord(mp),
+					"ParseUncompressed and the model disagree: go=" + c02Trunc(goRep) + " model=" + c02Trunc(mp),
 					"correspondence Codec.parseUncompressed ~ profile.ParseUncompressed (theorems unmarshal_never_panics, postDecode_never_panics, parse_ok_* are about the model)"
 			}
-			c.Res.Hit("model:parseUncompressed-" + firstWord(goRep))
+			c.Res.Hit("model:parseUncompressed-" + c02FirstWord(goRep))
 		}
 	}
 	// (2) ParseData ~ Parse.dispatch
 	c.Res.ModelCompared++
 	md := c.Drv.Ask("c02.dispatch " + htok)
-	kind := firstWord(md)
+	kind := c02FirstWord(md)
 	c.Res.Hit("model:dispatch-" + kind)
 	const brokenD = "correspondence Parse.dispatch ~ profile.ParseData (theorems parse_ok_valid_or_rejected, parseCPU_never_panics, dispatch_never_panics are about the model)"
 	switch kind {
 	case "proto":
 		if !o.accepted {
-			return "C02/model-dispatch/proto-accepted-go-rejected", "the model accepts (valid protobuf profile) but ParseData fails: " + trunc(o.errText), brokenD
+			return "C02/model-dispatch/proto-accepted-go-rejected", "the model accepts (valid protobuf profile) but ParseData fails: " + c02Trunc(o.errText), brokenD
 		}
 		if o.canon != "" && md != "proto "+o.canon {
-			return "C02/model-dispatch/proto-" + diffField(o.canon, strings.TrimPrefix(md, "proto ")), "ParseData and the model return different profiles", brokenD
+			return "C02/model-dispatch/proto-" + c02DiffField(o.canon, strings.TrimPrefix(md, "proto ")), "ParseData and the model return different profiles", brokenD
 		}
 	case "rejected":
 		if o.accepted {
@@ -384,14 +384,14 @@ func c02Correspond(c *Ctx, raw, b []byte, wasGz bool, o *c02Outcome) (sig, what,
 	case "cpu":
 		flavour, period, ms, ok := c02ParseCPUReply(strings.TrimPrefix(md, "cpu "))
 		if !ok {
-			return "C02/model-dispatch/bad-reply", "unparsable model reply: " + trunc(md), brokenD
+			return "C02/model-dispatch/bad-reply", "unparsable model reply: " + c02Trunc(md), brokenD
 		}
 		c.Res.Hit("model:cpu-" + flavour)
 		o.cpu = true
 		if !o.accepted {
 			if flavour == "cpp" && len(b) < 60000 {
 				// text tail: only bufio.Scanner's 64 KiB token limit can make ParseMemoryMap fail
-				return "C02/model-dispatch/cpu-go-rejected", "the model recognises a binary CPU profile but ParseData fails: " + trunc(o.errText), brokenD
+				return "C02/model-dispatch/cpu-go-rejected", "the model recognises a binary CPU profile but ParseData fails: " + c02Trunc(o.errText), brokenD
 			}
 			c.Res.Hit("model:cpu-java-text-rejected")
 			return
@@ -433,7 +433,7 @@ func c02Correspond(c *Ctx, raw, b []byte, wasGz bool, o *c02Outcome) (sig, what,
 			return "C02/model-dispatch/text-go-cpu", "ParseData returns a binary legacy CPU profile for an input the model's parseCPU does not recognise (header or nstk bound)", brokenD
 		}
 	default: // panic …, err, drv-dead, bad-op
-		return "C02/model-dispatch/" + kind, "unexpected model reply: " + trunc(md), brokenD
+		return "C02/model-dispatch/" + kind, "unexpected model reply: " + c02Trunc(md), brokenD
 	}
 	return
 }
